@@ -132,8 +132,8 @@ CHECKS = {
              'statement is REFUTED at the first day of the range = known finding F27), parsers accept exactly the documented syntax and return in-range '
              'mathematically exact values, NewDecimal(i, e) is exact or an error, the civil calendar conversions are mutually inverse on all days; ipaddr: every '
              'well-formed address / prefix prints (dotted quad; IPv6 with :: compression) to a string that parses back to it, exactly except the IPv4-mapped IPv6 '
-             'addresses (C12_ipaddr_roundtrip_exact; known finding F30). '
-             'Correspondence: parsers on literal tables + edit-distance mutants, printers on boundary/random values, NewDecimal grid; direct oracle: the '
+             'addresses (C12_ipaddr_roundtrip_exact; known finding F30); entity uids outside policies (Impl/UidText.v: EntityUID.UnmarshalCedar is a parser of its own): the printed form reads back for every non-empty type without the separator and every UTF-8 id, and the accepted texts are characterised exactly (C12_uid_text_roundtrip, C12_uid_text_accepted). '
+             'Correspondence: parsers on literal tables + edit-distance mutants, printers on boundary/random values, NewDecimal grid, EntityUID.UnmarshalCedar / UnmarshalBinary on printed forms and mutants; direct oracle: the '
              'Cedar rendering of values of every type evaluates to an equal value.',
         note=TB + 'time.Date/UnixMilli and net/netip are stdlib: the calendar and the ip printer / parser are models of them, tied by the scalar correspondences.',
         technique='Coq round-trip and exactness proofs over all int64 (calendar by era sweep lifted) + differential correspondence'),
@@ -216,11 +216,11 @@ CHECKS = {
     'C20': dict(
         level='proof', design='§6 C20',
         text='Theorems: Add/Remove refine the abstract id->policy function and keep ids unique; MarshalCedar order is the id-sorted permutation and '
-             'represents the same map; authorization depends only on the contents. Correspondence: every history of <=3 (quick) / <=4 operations over '
+             'represents the same map; authorization depends only on the contents. OVER HISTORIES (Proofs/PolicySetHistory.v): from any state with unique ids - in particular the empty set - every answer of every operation sequence is the one the plain map model predicts and the state is the predicted map (C20_every_history, C20_every_history_from_empty), the prediction is unique, sets with the same bindings are indistinguishable under every history; the loader: the i-th policy of a document gets the id policy<decimal i>, ids distinct, no others (C20_loader_ids, C20_policy_id_is_decimal, C20_policy_id_injective). Correspondence: every history of <=3 (quick) / <=4 operations over '
              'add/replace/remove/JSON round trip/text reload/load document/Map() mutation, followed by get/all/marshal/authorize, and random histories, '
              'every operation result compared (incl. policy0..policyN numbering, policy10 < policy2, file names).',
         note=TB,
-        technique='Coq refinement to an abstract map + exhaustive short-history correspondence'),
+        technique='Coq refinement to an abstract map over every history of operations + exhaustive short-history correspondence'),
 }
 
 ALL = ['C%02d' % i for i in range(1, 21)]
